@@ -55,9 +55,9 @@ func (prop) ID() string { return "C04" }
 
 func (prop) Plan(tier string) []core.Phase {
 	if tier == "thorough" {
-		return []core.Phase{{Name: "trunc", Runs: 200000}, {Name: "edit", Runs: 12000000}}
+		return []core.Phase{{Name: "trunc", Runs: 4000000}, {Name: "edit", Runs: 80000000}}
 	}
-	return []core.Phase{{Name: "trunc", Runs: 4000}, {Name: "edit", Runs: 400000}}
+	return []core.Phase{{Name: "trunc", Runs: 100000}, {Name: "edit", Runs: 2000000}}
 }
 
 func (prop) Describe() core.Description {
